@@ -158,6 +158,7 @@ func (p *Prog) collectSrcFuncs() {
 		}
 		return a.String() < b.String()
 	})
+	p.computeFuncAliases()
 }
 
 // SrcFuncs returns every function with a body defined in the module (non-test), including closures.
@@ -191,6 +192,37 @@ func PkgPath(rel string) string {
 // name. name is "F" for a package-level function, "T.M" / "(*T).M" for a method, and
 // "F$1" / "(*T).M$2" for the n-th anonymous function inside it. Returns nil if absent.
 func (p *Prog) Func(pkgRel, name string) *ssa.Function {
+	if f := p.funcDirect(pkgRel, name); f != nil {
+		// a recorded name that now denotes a different (renumbered) closure is resolved through the alias table
+		if fc := funcCanonOf[p.SSA]; fc != nil {
+			if _, aliased := fc.alias[f]; aliased {
+				if g := fc.byCanon[f.String()]; g != nil {
+					return g
+				}
+				return nil
+			}
+		}
+		return f
+	}
+	if fc := funcCanonOf[p.SSA]; fc != nil {
+		full := PkgPath(pkgRel)
+		for canon, f := range fc.byCanon {
+			// canon is f.String() form: "pkg/path.F", "(*pkg/path.T).M", with $k suffixes
+			want := full + "." + name
+			if strings.HasPrefix(name, "(*") {
+				want = "(*" + full + "." + strings.TrimPrefix(name, "(*")
+			} else if strings.HasPrefix(name, "(") {
+				want = "(" + full + "." + strings.TrimPrefix(name, "(")
+			}
+			if canon == want {
+				return f
+			}
+		}
+	}
+	return nil
+}
+
+func (p *Prog) funcDirect(pkgRel, name string) *ssa.Function {
 	sp := p.SSAPkg[PkgPath(pkgRel)]
 	if sp == nil {
 		return nil
@@ -262,7 +294,7 @@ func FuncName(f *ssa.Function) string {
 	if f == nil {
 		return "<nil>"
 	}
-	s := f.String()
+	s := canonString(f)
 	s = strings.ReplaceAll(s, ModPath+"/", "")
 	s = strings.ReplaceAll(s, ModPath, "mosproxy")
 	return s
